@@ -371,6 +371,7 @@ def r6_config_selection(ctx):
   # bias: is_constant true only under the SRQ predicate
   b = ctx.repo.func(f'{NMM}:_materialize_bias_for_conv_ops')
   ctx.instance(R)
+  ctx.rule(R + 'c', 'construction part of C03.R6: bias constness is spelled with the static-range predicate')
   gtt = ctx.repo.func(f'{MMU}:get_tensor_transformations')
   srq = None
   for st in gtt.node.body:
@@ -388,9 +389,9 @@ def r6_config_selection(ctx):
       found.append(defuse.norm(inl0.inline(b, kw['is_constant'])).replace('op_info.op_quant_config', 'CFG').replace('_ComputePrecision', 'CP').replace('qtyping.ComputePrecision', 'CP'))
     if 'is_inbounding_tensor' in kw and defuse.norm(kw['is_inbounding_tensor']) == 'True':
       ok = True
-  ctx.check(R, found and all(x == want for x in found), b.node, b, f'is_constant = {found}',
+  ctx.check(R + 'c', found and all(x == want for x in found), b.node, b, f'is_constant = {found}',
             f'bias is treated as a constant under {found}, must be exactly the static-range predicate {want}')
-  ctx.check(R, ok, b.node, b, 'bias transformation params', 'bias params must be built with is_inbounding_tensor=True')
+  ctx.check(R + 'c', ok, b.node, b, 'bias transformation params', 'bias params must be built with is_inbounding_tensor=True')
 
 
 def r7_float_casting(ctx):
